@@ -1,16 +1,19 @@
-// Kani module `ods` (appended to src/ods.rs): bounded stand-in for C04 on the real, generic `get_range::<T>`.
+// Kani module `ods` (appended to src/ods.rs): BOUNDED stand-in for C04 on the real, generic `get_range::<T>`.
+// (The unbounded result is the Verus unit units/ods; these harnesses re-check the same oracle on the compiled code,
+// bit-precisely, for a fixed list of shapes.)
 //
 // ORACLE (written from the property, not from the code): the logical grid is the list of physical rows, each
 // taken `rows_repeats[i]` times; a position holds the physical row's cell if the row is long enough, the default
 // value otherwise.  The result must be the empty range iff no logical cell is non-default; otherwise
 // start/end are the tight bounding box of the non-default logical cells, `inner.len() == height * width` and
-// `get_value(p)` is the logical grid's value for every p of the box.
+// `get_value(p)` is the logical grid's value for every p of the box.  Two encodings of the same logical grid must give
+// the same range (run-length independence).
 //
 // Measured: with the emptiness of cells symbolic, `col_min/col_max/row_min` become symbolic slice bounds and
-// CBMC's symbolic execution of `extend_from_slice` does not finish (shape [2,2,2], repeats [1,1,1]: > 330 s).
-// Therefore per harness the shape (physical row lengths) and the repeat vector are CONCRETE, the harness walks
-// through ALL emptiness masks of that shape (which cells are default) with concrete control flow, and only the
-// payload of the non-default cells is symbolic (cell type `K`: `nz` concrete, `v` symbolic).
+// CBMC's symbolic execution of `extend_from_slice` does not finish (shape [2,2,2], repeats [1,1,1]: > 330 s); even with
+// fully concrete control flow one call of get_range costs ~14 s.  Therefore every harness runs a SHORT LIST OF CONCRETE
+// CASES: shape (physical row lengths), repeat vector and emptiness pattern are concrete, only the payload of the
+// non-default cells is symbolic (cell type `K`: `nz` concrete, `v` symbolic).
 
 #[derive(Clone, Copy, Default, PartialEq, Debug)]
 struct K {
@@ -19,16 +22,22 @@ struct K {
 }
 impl crate::CellType for K {}
 
-const MAXW: usize = 3; // widest physical row of any shape below
-const MAXH: usize = 6; // 3 physical rows, repeats <= 2
-const MAXC: usize = 8; // cells per shape
+const MAXW: usize = 3; // widest physical row used below
+const MAXH: usize = 8; // most logical rows used below
 
-/// cells of a concrete shape under a concrete emptiness mask (bit k set: cell k is non-default, payload pay[k])
-fn mk_cells<const N: usize>(lens: [usize; N], mask: u32, pay: &[u8; MAXC]) -> (Vec<K>, [usize; 4]) {
+const BOUNDS: u8 = 1;
+const LEN: u8 = 2;
+const PLACE: u8 = 4;
+const ALL: u8 = 7;
+
+/// cells of a concrete shape under a concrete emptiness mask (bit k set: cell k is non-default, payload pay[k]);
+/// returns (cells, cols)
+fn mk(lens: &[usize], mask: u32, pay: &[u8; 8]) -> (Vec<K>, Vec<usize>) {
     let mut cells: Vec<K> = Vec::new();
-    let mut cols = [0usize; 4];
+    let mut cols: Vec<usize> = Vec::new();
+    cols.push(0);
     let mut i = 0;
-    while i < N {
+    while i < lens.len() {
         let mut j = 0;
         while j < lens[i] {
             let k = cells.len();
@@ -39,7 +48,7 @@ fn mk_cells<const N: usize>(lens: [usize; N], mask: u32, pay: &[u8; MAXC]) -> (V
             }
             j += 1;
         }
-        cols[i + 1] = cells.len();
+        cols.push(cells.len());
         i += 1;
     }
     (cells, cols)
@@ -47,11 +56,11 @@ fn mk_cells<const N: usize>(lens: [usize; N], mask: u32, pay: &[u8; MAXC]) -> (V
 
 /// the logical grid: rows expanded by their repeat counts, padded with the default value to MAXW columns;
 /// returns (grid, logical height)
-fn expand<const N: usize>(cells: &[K], cols: &[usize], reps: [usize; N]) -> ([[K; MAXW]; MAXH], usize) {
+fn expand(cells: &[K], cols: &[usize], reps: &[usize]) -> ([[K; MAXW]; MAXH], usize) {
     let mut g = [[K::default(); MAXW]; MAXH];
     let mut h = 0;
     let mut i = 0;
-    while i < N {
+    while i < reps.len() {
         let mut k = 0;
         while k < reps[i] {
             let mut c = 0;
@@ -89,113 +98,156 @@ fn bbox(g: &[[K; MAXW]; MAXH], h: usize) -> Option<(usize, usize, usize, usize)>
     if any { Some((r0, r1, c0, c1)) } else { None }
 }
 
-fn row_blank(cells: &[K], cols: &[usize], i: usize) -> bool {
-    let mut c = cols[i];
-    while c < cols[i + 1] {
-        if cells[c].nz { return false; }
-        c += 1;
-    }
-    true
-}
-
-/// true iff the input is in the region hit by the known defect (findings/ods.json, interior blank row width): the
-/// data does not start in column 0 and a blank physical row lies between two non-blank physical rows
-fn in_known_defect_region<const N: usize>(cells: &[K], cols: &[usize], c0: usize) -> bool {
-    let mut first = N;
-    let mut last = 0;
-    let mut i = 0;
-    while i < N {
-        if !row_blank(cells, cols, i) {
-            if first == N { first = i; }
-            last = i;
+/// run the real function on one concrete case and compare with the oracle; returns the range
+fn case(lens: &[usize], reps: &[usize], mask: u32, pay: &[u8; 8], facts: u8) -> Range<K> {
+    let (cells, cols) = mk(lens, mask, pay);
+    let (g, h) = expand(&cells, &cols, reps);
+    let r = get_range::<K>(cells.clone(), &cols, reps);
+    match bbox(&g, h) {
+        None => {
+            // C04.empty_iff: no non-default cell -> the empty range
+            assert!(r.inner.is_empty() && r.start == (0, 0) && r.end == (0, 0));
         }
-        i += 1;
-    }
-    let mut interior_blank = false;
-    let mut i = first;
-    while i < last {
-        if row_blank(cells, cols, i) { interior_blank = true; }
-        i += 1;
-    }
-    c0 > 0 && interior_blank
-}
-
-#[derive(Clone, Copy, PartialEq)]
-enum Fact { Bounds, Len, Placement }
-
-/// `exclude_known`: skip the masks inside the known-defect region (these harnesses must pass; the unrestricted
-/// ones carry the property as stated and are registered as known findings where the defect makes them fail)
-fn check<const N: usize>(lens: [usize; N], reps: [usize; N], fact: Fact, exclude_known: bool) {
-    check_masks(lens, reps, fact, exclude_known, 0, u32::MAX)
-}
-
-fn check_masks<const N: usize>(lens: [usize; N], reps: [usize; N], fact: Fact, exclude_known: bool, lo: u32, hi: u32) {
-    let pay: [u8; MAXC] = kani::any();
-    let mut total = 0;
-    let mut i = 0;
-    while i < N { total += lens[i]; i += 1; }
-    let mut mask: u32 = lo;
-    let end = if hi < (1u32 << total) { hi } else { 1u32 << total };
-    while mask < end {
-        let (cells, cols4) = mk_cells(lens, mask, &pay);
-        let cols = &cols4[..N + 1];
-        let (g, h) = expand(&cells, cols, reps);
-        let bb = bbox(&g, h);
-        let skip = match bb {
-            Some((_, _, c0, _)) => exclude_known && in_known_defect_region::<N>(&cells, cols, c0),
-            None => false,
-        };
-        if !skip {
-            let r = get_range::<K>(cells.clone(), cols, &reps[..]);
-            match bb {
-                None => {
-                    // C04.empty_iff: no non-default cell -> the empty range
-                    assert!(r.inner.is_empty() && r.start == (0, 0) && r.end == (0, 0));
+        Some((r0, r1, c0, c1)) => {
+            if facts & BOUNDS != 0 {
+                // C04.bbox_tight (and not the empty range)
+                assert!(r.start == (r0 as u32, c0 as u32));
+                assert!(r.end == (r1 as u32, c1 as u32));
+                assert!(!r.inner.is_empty());
+            }
+            if facts & LEN != 0 {
+                // C04.len_is_h_times_w
+                assert!(r.inner.len() == (r1 - r0 + 1) * (c1 - c0 + 1));
+            }
+            if facts & PLACE != 0 {
+                // C04.placement (observed through the public accessor)
+                let mut rr = r0;
+                while rr <= r1 {
+                    let mut cc = c0;
+                    while cc <= c1 {
+                        assert!(r.get_value((rr as u32, cc as u32)) == Some(&g[rr][cc]));
+                        cc += 1;
+                    }
+                    rr += 1;
                 }
-                Some((r0, r1, c0, c1)) => match fact {
-                    Fact::Bounds => {
-                        // C04.bbox_tight (and not the empty range)
-                        assert!(r.start == (r0 as u32, c0 as u32));
-                        assert!(r.end == (r1 as u32, c1 as u32));
-                        assert!(!r.inner.is_empty());
-                    }
-                    Fact::Len => {
-                        // C04.len_is_h_times_w
-                        assert!(r.inner.len() == (r1 - r0 + 1) * (c1 - c0 + 1));
-                    }
-                    Fact::Placement => {
-                        // C04.placement (observed through the public accessor)
-                        let mut rr = r0;
-                        while rr <= r1 {
-                            let mut cc = c0;
-                            while cc <= c1 {
-                                assert!(r.get_value((rr as u32, cc as u32)) == Some(&g[rr][cc]));
-                                cc += 1;
-                            }
-                            rr += 1;
-                        }
-                    }
-                },
             }
         }
-        mask += 1;
     }
-    kani::cover!(mask == end);
+    r
 }
 
-macro_rules! h {
-    ($name:ident, $lens:expr, $reps:expr, $fact:expr, $excl:expr) => {
-        #[kani::proof]
-        fn $name() { check($lens, $reps, $fact, $excl) }
-    };
+fn same(a: &Range<K>, b: &Range<K>) -> bool {
+    a.start == b.start && a.end == b.end && a.inner == b.inner
 }
 
-// ---- probe harnesses (timing)
-h!(ods_gr_222_r111_bounds, [2, 2, 2], [1, 1, 1], Fact::Bounds, false);
-h!(ods_gr_222_r111_len, [2, 2, 2], [1, 1, 1], Fact::Len, false);
-h!(ods_gr_222_r111_place, [2, 2, 2], [1, 1, 1], Fact::Placement, false);
+// ---------------------------------------------------------------------------------------------------------------
+// leading empty runs: TWO OR MORE leading empty physical rows (`first_empty_rows_repeated = sum(repeats before) - i`
+// with i >= 2), against the same logical grid written with ONE leading empty row element
+// ---------------------------------------------------------------------------------------------------------------
+#[kani::proof]
+fn ods_gr_leading_two_rows_vs_one() {
+    let pay: [u8; 8] = kani::any();
+    // [] x2, [] x3, [_, v]   ==   [] x5, [_, v]      (data in column B: col_min = 1)
+    let a = case(&[0, 0, 2], &[2, 3, 1], 0b10, &pay, ALL);
+    let b = case(&[0, 2], &[5, 1], 0b10, &pay, ALL);
+    assert!(same(&a, &b));
+    assert!(a.start == (5, 1) && a.end == (5, 1));
+}
+#[kani::proof]
+fn ods_gr_leading_runs_mixtures() {
+    let pay: [u8; 8] = kani::any();
+    // explicit copies [] [] [] (1,1,1 then data) == one element repeated 3
+    let a = case(&[0, 0, 0, 2], &[1, 1, 1, 1], 0b11, &pay, ALL);
+    let b = case(&[0, 2], &[3, 1], 0b11, &pay, ALL);
+    assert!(same(&a, &b));
+    // mixture 2+3 against 5, data row itself repeated, non-empty first column
+    let c = case(&[0, 0, 2], &[2, 3, 2], 0b01, &pay, ALL);
+    let d = case(&[0, 2], &[5, 2], 0b01, &pay, ALL);
+    assert!(same(&c, &d));
+    assert!(c.start == (5, 0) && c.end == (6, 0));
+    // leading empty rows that are not zero-length (explicit empty cells), three of them
+    let e = case(&[1, 2, 1, 2], &[1, 2, 1, 1], 0b100000, &pay, ALL);
+    assert!(e.start == (4, 1));
+}
 
+// ---------------------------------------------------------------------------------------------------------------
+// trailing empty runs of any length never enlarge the range
+// ---------------------------------------------------------------------------------------------------------------
 #[kani::proof]
-fn ods_gr_probe_one() { check_masks([2, 2, 2], [1, 1, 1], Fact::Bounds, false, 0b100110, 0b100111) }
+fn ods_gr_trailing_runs() {
+    let pay: [u8; 8] = kani::any();
+    let a = case(&[2, 0, 0], &[1, 2, 3], 0b10, &pay, ALL);
+    assert!(a.start == (0, 1) && a.end == (0, 1));
+    let b = case(&[2, 2, 0], &[2, 1, 4], 0b0001, &pay, ALL);
+    assert!(b.start == (0, 0) && b.end == (1, 0));
+    // trailing empty cells inside rows (covered / explicit empties) and a trailing row
+    let c = case(&[3, 3, 1], &[1, 1, 2], 0b001001, &pay, ALL);
+    assert!(c.end == (1, 0));
+}
+
+// ---------------------------------------------------------------------------------------------------------------
+// interior empty runs with data starting in column A (col_min == 0): must pass
+// ---------------------------------------------------------------------------------------------------------------
 #[kani::proof]
-fn ods_gr_probe_four() { check_masks([2, 2, 2], [1, 1, 1], Fact::Bounds, false, 0b100100, 0b101000) }
+fn ods_gr_interior_runs_col0() {
+    let pay: [u8; 8] = kani::any();
+    // [v,_] / [] x2 / [v,w]     and the same with explicit copies of the blank row
+    let a = case(&[2, 0, 2], &[1, 2, 1], 0b1101, &pay, ALL);
+    let b = case(&[2, 0, 0, 2], &[1, 1, 1, 1], 0b1101, &pay, ALL);
+    assert!(same(&a, &b));
+    assert!(a.start == (0, 0) && a.end == (3, 1));
+    // blank row written with explicit empty cells, shorter and longer than the box
+    let mut p2 = pay;
+    p2[3] = pay[5];
+    let c = case(&[2, 1, 2], &[1, 1, 1], 0b01001, &p2, ALL);
+    let d = case(&[2, 3, 2], &[1, 1, 1], 0b0100001, &pay, ALL);
+    assert!(same(&c, &d));
+}
+
+// ---------------------------------------------------------------------------------------------------------------
+// repeated non-blank rows: one repeated element == explicit copies, in any mixture; rows shorter/longer than the box
+// ---------------------------------------------------------------------------------------------------------------
+#[kani::proof]
+fn ods_gr_repeated_rows() {
+    let mut pay: [u8; 8] = kani::any();
+    // rows [v] x3 as 3 / 1+2 / 1+1+1 (same payload for the copies)
+    pay[1] = pay[0];
+    pay[2] = pay[0];
+    let a = case(&[1], &[3], 0b1, &pay, ALL);
+    let b = case(&[1, 1], &[1, 2], 0b11, &pay, ALL);
+    let c = case(&[1, 1, 1], &[1, 1, 1], 0b111, &pay, ALL);
+    assert!(same(&a, &b) && same(&b, &c));
+    // shape [1,3,2]: a short row, a long row, a middle row; no blank row
+    let pay2: [u8; 8] = kani::any();
+    let d = case(&[1, 3, 2], &[2, 1, 2], 0b101001, &pay2, ALL);
+    assert!(d.start == (0, 0) && d.end == (4, 2));
+    let e = case(&[1, 3, 2], &[1, 2, 1], 0b101000, &pay2, ALL);
+    assert!(e.start == (1, 1) && e.end == (3, 2));
+}
+
+// ---------------------------------------------------------------------------------------------------------------
+// KNOWN FINDING (findings/ods.json): interior blank row while the data starts in column B.  Facts are split so that the defect
+// (length, placement) does not mask the bounds; the *_bounds harness must pass, the other ones are registered as known findings.
+// ---------------------------------------------------------------------------------------------------------------
+#[kani::proof]
+fn ods_gr_interior_blank_colB_bounds() {
+    let pay: [u8; 8] = kani::any();
+    let r = case(&[2, 2, 2], &[1, 1, 1], 0b100010, &pay, BOUNDS);
+    assert!(r.start == (0, 1) && r.end == (2, 1));
+}
+#[kani::proof]
+fn ods_gr_interior_blank_colB_len() {
+    let pay: [u8; 8] = kani::any();
+    let _ = case(&[2, 2, 2], &[1, 1, 1], 0b100010, &pay, LEN);
+}
+#[kani::proof]
+fn ods_gr_interior_blank_colB_place() {
+    let pay: [u8; 8] = kani::any();
+    let _ = case(&[2, 2, 2], &[1, 1, 1], 0b100010, &pay, PLACE);
+}
+#[kani::proof]
+fn ods_gr_interior_blank_repeated_colC_len() {
+    let pay: [u8; 8] = kani::any();
+    // [_,_,v] / [] x2 / [_,_,w]
+    let _ = case(&[3, 0, 3], &[1, 2, 1], 0b100100, &pay, LEN);
+}
